@@ -7,6 +7,7 @@ import types
 from collections import Counter
 
 import vlib
+import c18_shapes as SH
 
 PROPS = "Props/C18.v"
 RULE = ("correspondence: the same (config, blocks, PRNG draws) is run through the real "
@@ -349,6 +350,92 @@ def mk_builder(cfg, initial_blocks=None):
                                      initial_blocks=initial_blocks)
 
 
+FORMS = ("kw", "omit", "pos", "mixed")
+
+
+def mk_builder_form(cfg, form, initial_blocks=None):
+    """class 6: the same configuration through different call forms of the constructor"""
+    seg = seg_module()
+    h, w, mn, mx, ms, xs, allow = cfg
+    if form == "kw":
+        return mk_builder(cfg, initial_blocks)
+    if form == "pos":
+        return seg.SegmentationBuilder2D(h, w, mn, mx, ms, xs, allow, initial_blocks)
+    if form == "mixed":
+        return seg.SegmentationBuilder2D(h, w, mn, mx, min_block_size=ms, max_block_size=xs,
+                                         initial_blocks=initial_blocks, allow_unmet_constraints_first=allow)
+    kw = {}
+    for k, v in (("min_num_blocks", mn), ("max_num_blocks", mx), ("min_block_size", ms), ("max_block_size", xs),
+                 ("initial_blocks", initial_blocks)):
+        if v is not None:
+            kw[k] = v
+    if allow:
+        kw["allow_unmet_constraints_first"] = True
+    return seg.SegmentationBuilder2D(width=w, height=h, **kw)
+
+
+def fresh_int(v):
+    """class 2: an int object created at run time (never the cached / constant-folded object)"""
+    return None if v is None else int(str(v))
+
+
+def fresh_cfg(cfg):
+    h, w, mn, mx, ms, xs, allow = cfg
+    return (fresh_int(h), fresh_int(w), fresh_int(mn), fresh_int(mx), fresh_int(ms), fresh_int(xs), allow)
+
+
+def hard_scramble(obj, depth=0):
+    """class 3: lasting damage to every list reachable from obj (tuples are walked, not changed)"""
+    if depth > 6:
+        return
+    if isinstance(obj, list):
+        for x in list(obj):
+            hard_scramble(x, depth + 1)
+        obj.insert(0, (-7, -7))
+        obj.append((-8, -8))
+    elif isinstance(obj, tuple):
+        for x in obj:
+            hard_scramble(x, depth + 1)
+
+
+def impl_candidates_history(cfg, seq):
+    """class 3: ONE builder, the calls of `seq` = [(key, draws)] in order on the same list objects per key;
+    everything returned is scrambled before the next call.  seq entries refer to values by index into `vals`."""
+    vals, calls = seq
+
+    def f():
+        b = mk_builder(cfg)
+        objs = [[list(x) for x in blocks] for blocks in vals]
+        out = []
+        for (vi, draws) in calls:
+            try:
+                with patched(Replay(draws)) as rp:
+                    cands = b.candidates(objs[vi])
+                r = ("ok", (tuple(norm_update(u) for u in canon_list(cands)), rp.remaining()))
+                hard_scramble(cands)
+            except BaseException as ex:  # noqa
+                if isinstance(ex, (KeyboardInterrupt, SystemExit)):
+                    raise
+                r = norm_err(("err", vlib.err_name(ex)))
+            out.append(r)
+        return tuple(out)
+    return vlib.guarded(f)
+
+
+def impl_apply_twice(blocks, u):
+    """class 3: copy_with_update twice on the same objects; the arguments must come back unchanged"""
+    def f():
+        b = mk_builder((1, 1, None, None, None, None, False))
+        prev = [list(x) for x in blocks]
+        upd = ([*u[0]], [list(x) for x in u[1]])
+        psnap, usnap = copy.deepcopy(prev), copy.deepcopy(upd)
+        r1 = norm_blocks(b.copy_with_update(prev, upd))
+        same1 = (prev == psnap, upd == usnap)
+        r2 = norm_blocks(b.copy_with_update(prev, upd))
+        return (r1, r2, same1, (prev == psnap, upd == usnap))
+    return norm_err(vlib.guarded(f))
+
+
 def impl_candidates(cfg, blocks, draws):
     def f():
         b = mk_builder(cfg)
@@ -510,6 +597,278 @@ def correspond(ctx):
             ctx.corr("split_block", (blk, arg), parse_split(o), impl_split(blk, arg))
         else:
             ctx.corr("_is_connected", (blk, arg), ("ok", o.strip() == "T"), impl_isconn(blk, arg))
+
+    correspond_hard(ctx, m)
+
+
+# ---------------------------------------------------------------- correspondence, hardened input classes
+
+TARGET_BOARDS = [(3, 5), (5, 3), (4, 4), (4, 5), (5, 5), (2, 7), (5, 6), (6, 6), (4, 7), (7, 5), (7, 7)]
+
+
+def state_bounds(rng, h, w, blocks):
+    """bound configurations that the given partition satisfies: default / no split possible / no merge possible / tight sizes"""
+    n = len(blocks)
+    sizes = [len(b) for b in blocks]
+    r = rng.randrange(6)
+    if r == 0:
+        return (h, w, None, None, None, None, False)
+    if r == 1:
+        return (h, w, None, n, None, None, False)
+    if r == 2:
+        return (h, w, n, None, None, None, False)
+    if r == 3:
+        return (h, w, None, None, min(sizes), max(sizes), False)
+    if r == 4:
+        return (h, w, max(1, n - 1), n + 1, None, max(sizes) + 1, False)
+    return (h, w, None, None, max(1, min(sizes) - 1), None, False)
+
+
+def targeted_blocks(rng, h, w, per_k=1, ks=None):
+    """(label, block) — class 5: rings with tails, blocks with holes, carved non-convex blocks of every size from
+    16 cells (or half the board) up, catalogue shapes (snake / spiral / comb / U / C / plus / staircase / notched / frames)"""
+    out = []
+    cat = SH.catalogue(h, w)
+    rng.shuffle(cat)
+    for name, b in cat[:8]:
+        out.append(("cat:" + name.split("/")[0], b))
+    for _ in range(4):
+        b = SH.ring_with_tails(rng, h, w)
+        if b and SH.connected(b):
+            out.append(("ring-tail", sorted(b)))
+    n = h * w
+    lo = min(16, max(2, n // 2))
+    for k in (ks if ks is not None else range(lo, n)):
+        for _ in range(per_k):
+            out.append(("carved", SH.carve(rng, h, w, k)))
+    return out
+
+
+def correspond_hard(ctx, m):
+    rng = ctx.rng
+
+    # --- (class 5) _is_connected on ALL cell subsets of 3x4 and 4x4, every excluded cell; sampled 5x5
+    reqs, cases = [], []
+
+    def isconn(blk, excl):
+        reqs.append("ISCONN %s %s" % (enc_block(blk), "_" if excl is None else "%d %d" % excl))
+        cases.append((tuple(blk), excl))
+
+    for blk in SH.subsets(3, 4):
+        out = [c for c in SH.board(3, 4) if c not in blk]
+        for ex in [None] + blk + [out[0] if out else (-1, 0)]:
+            isconn(blk, ex)
+    conn44 = set(SH.connected_masks(4, 4))
+    for mask in range(1, 1 << 16):
+        blk = SH.mask_cells(4, 4, mask)
+        conn = mask in conn44
+        if ctx.thorough or (conn and len(blk) >= 8 and SH.has_hole(4, 4, blk)):
+            exs = [None] + blk                                   # quick: every cell of every block with a hole
+        elif conn:
+            exs = [None] + rng.sample(blk, min(len(blk), 3))
+        elif mask % 3 == ctx.seed % 3:
+            exs = [rng.choice([None] + blk)]
+        else:
+            exs = []
+        for ex in exs:
+            isconn(blk, ex)
+        if conn and mask % 4 == 0:
+            sb = SH.reorder(rng, blk, 2)
+            isconn(sb, rng.choice(sb))
+    for _ in range(6000 if ctx.thorough else 1200):
+        k = rng.randint(2, 24)
+        blk = SH.carve(rng, 5, 5, k) if rng.random() < 0.7 else sorted(rng.sample(SH.board(5, 5), k))
+        blk = SH.reorder(rng, blk)
+        for ex in (rng.choice(blk), rng.choice(blk), None):
+            isconn(blk, ex)
+    for (blk, ex), o in zip(cases, m.batch(reqs)):
+        ctx.corr("_is_connected/all-subsets", (blk, ex), ("ok", o.strip() == "T"), impl_isconn(blk, ex))
+
+    # --- (class 5) split_block: all subsets of 3x3 x all ordered seed pairs; all subsets of 3x4, all connected subsets of 4x4, sampled 5x5..7x7
+    reqs, cases = [], []
+
+    def split(blk, draws):
+        reqs.append("SPLIT %s %s" % (enc_block(blk), enc_nats(draws)))
+        cases.append((tuple(blk), tuple(draws)))
+
+    def pairs(n, k):
+        out = []
+        for _ in range(k):
+            a = rng.randrange(n)
+            b = rng.randrange(n - 1)
+            b = b + 1 if b >= a else b
+            pre = [rng.randrange(n)] * 2 if rng.random() < 0.1 else []      # an equal pair first: one re-draw
+            out.append(pre + [a + n * rng.randint(0, 3), b + n * rng.randint(0, 3)])
+        return out
+
+    for blk in SH.subsets(3, 3, 2):
+        for a in range(len(blk)):
+            for b in range(len(blk)):
+                if a != b:
+                    split(blk, [a, b])
+    for blk in SH.subsets(3, 4, 2):
+        n = len(blk)
+        if ctx.thorough:
+            for a in range(n):
+                for b in range(n):
+                    if a != b:
+                        split(blk, [a, b])
+        else:
+            for d in pairs(n, 2):
+                split(blk, d)
+    c44 = [b for b in SH.connected_subsets(4, 4) if len(b) >= 2]
+    for blk in c44:
+        for d in pairs(len(blk), 2 if ctx.thorough else 1):
+            split(SH.reorder(rng, blk) if rng.random() < 0.3 else blk, d)
+    for _ in range(3000 if ctx.thorough else 1500):
+        blk = sorted(rng.sample(SH.board(4, 4), rng.randint(2, 16)))
+        split(blk, pairs(len(blk), 1)[0])
+    for (h, w) in [(5, 5), (5, 6), (6, 6), (4, 7), (7, 7)]:
+        for label, blk in targeted_blocks(rng, h, w, per_k=2 if (h, w) == (5, 5) or ctx.thorough else 1):
+            for d in pairs(len(blk), 3):
+                split(SH.reorder(rng, blk), d)
+    for (blk, draws), o in zip(cases, m.batch(reqs)):
+        ctx.corr("split_block/all-subsets", (blk, draws), parse_split(o), impl_split(blk, draws))
+
+    # --- (class 5) candidates / copy_with_update on partitions built around targeted blocks
+    reqs, cases = [], []
+    for (h, w) in TARGET_BOARDS:
+        big = h * w >= 36
+        tb = targeted_blocks(rng, h, w, ks=None if not big else rng.sample(range(16, h * w), 4 if not ctx.thorough else 12))
+        if not ctx.thorough:
+            tb = rng.sample(tb, min(len(tb), 8 if big else 14))
+        for label, blk in tb:
+            blocks = SH.partition_around(h, w, SH.reorder(rng, blk), rng, cut=rng.choice([0.0, 0.5]),
+                                         order=rng.choice(["first", "last", "shuffle"]))
+            cfg = state_bounds(rng, h, w, blocks)
+            draws = rand_draws(rng, 30 * h * w + 40, small=rng.random() < 0.15)
+            reqs.append("CAND %s %s %s" % (enc_cfg(cfg), enc_blocks(blocks), enc_nats(draws)))
+            cases.append((cfg, norm_blocks(blocks), tuple(draws), label))
+    areqs, acases = [], []
+    for (cfg, blocks, draws, label), o in zip(cases, m.batch(reqs)):
+        io = impl_candidates(cfg, blocks, draws)
+        ctx.count("cand-shape:" + label)
+        ctx.corr("candidates/shapes", (cfg, blocks, draws[:8], len(draws)), parse_cand(o), io)
+        if io[0] == "ok" and io[1][0]:
+            ups = list(io[1][0])
+            for u in rng.sample(ups, min(3, len(ups))):
+                areqs.append("APPLY %s %s" % (enc_blocks(blocks), enc_update(u)))
+                acases.append((blocks, u))
+            ctx._c18_states.append((cfg, blocks, ups))
+
+    # --- (class 3) copy_with_update twice on the same objects, arguments unchanged
+    for (cfg, blocks, ups) in rng.sample(ctx._c18_states, min(len(ctx._c18_states), 400)):
+        u = rng.choice(ups)
+        areqs.append("APPLY %s %s" % (enc_blocks(blocks), enc_update(u)))
+        acases.append((blocks, u, "twice"))
+    for case, o in zip(acases, m.batch(areqs)):
+        mo = parse_blocks_reply(o, False)
+        if len(case) == 2:
+            ctx.corr("copy_with_update/shapes", case, mo, impl_apply(*case))
+        else:
+            if mo[0] == "ok":
+                mo = ("ok", (mo[1], mo[1], (True, True), (True, True)))
+            ctx.corr("copy_with_update/twice", case[:2], mo, impl_apply_twice(case[0], case[1]))
+
+    # --- (class 3) one builder, calls A, B, A on the same objects, results scrambled in between
+    reqs, cases = [], []
+    pool = [st for st in ctx._c18_states if st[0][0] * st[0][1] <= 16]
+    for _ in range(min(len(pool), 1500 if ctx.thorough else 300)):
+        cfg, a, _u = rng.choice(pool)
+        h, w = cfg[0], cfg[1]
+        b = norm_blocks(rand_partition(rng, h, w, rng.randint(1, h * w)))
+        cfg = (h, w, cfg[2], cfg[3], cfg[4], cfg[5], False)
+        calls = []
+        for vi in (0, 1, 0, 0):
+            d = tuple(rand_draws(rng, 30 * h * w + 40))
+            calls.append((vi, d))
+        calls[3] = (0, calls[0][1])                      # exactly the first call again
+        for (vi, d) in calls:
+            reqs.append("CAND %s %s %s" % (enc_cfg(cfg), enc_blocks((a, b)[vi]), enc_nats(d)))
+        cases.append((cfg, (a, b), calls))
+    outs = m.batch(reqs)
+    for k, (cfg, vals, calls) in enumerate(cases):
+        mo = ("ok", tuple(parse_cand(o) for o in outs[4 * k:4 * k + 4]))
+        io = impl_candidates_history(cfg, (vals, calls))
+        ctx.corr("candidates/history", (cfg, vals, tuple((vi, d[:6]) for (vi, d) in calls)), mo, io)
+
+    # --- (class 2) integers beyond the small-int cache: bounds, block counts and block sizes above 256
+    big = [None, 0, 1, 257, 258, 300, 1000, 4096, 65537, -6, -300]
+    reqs, cases = [], []
+    for (h, w) in [(16, 17), (1, 300), (300, 1), (3, 3), (0, 300), (257, 257)]:
+        for _ in range(30):
+            cfg = (h, w, rng.choice(big), rng.choice(big), rng.choice(big), rng.choice(big), False)
+            reqs.append("CFG " + enc_cfg(cfg))
+            cases.append(cfg)
+    for cfg, o in zip(cases, m.batch(reqs)):
+        form = rng.choice(FORMS)
+
+        def f():
+            b = mk_builder_form(fresh_cfg(cfg), form)
+            return (b.min_num_blocks, b.max_num_blocks, b.min_block_size, b.max_block_size)
+        ctx.corr("init-defaults/big", (cfg, form), ("ok", tuple(int(v) for v in o.split()[1:])), vlib.guarded(f))
+    reqs, cases = [], []
+    for (h, w) in ([(1, 270), (2, 135), (16, 17), (17, 16)] if ctx.thorough else [(1, 270), (16, 17)]):
+        cells = SH.board(h, w)
+        n = len(cells)
+        rows = [[(y, x) for x in range(w)] for y in range(h)]
+        singles = [[c] for c in cells]
+        states = [("singletons", singles, (h, w, None, n, None, None, False)),
+                  ("singletons", singles, (h, w, n, n + 1, None, 2, False)),
+                  ("singletons", singles, (h, w, 257, n, 1, 257, False))]
+        if h == 1:
+            halves = [cells[:n // 2], cells[n // 2:]]
+            states.append(("halves", halves, (h, w, None, 2, None, None, False)))
+            states.append(("halves", halves, (h, w, 2, 2, n // 2, n // 2 + 1, False)))
+            one = [cells[:258], cells[258:]]
+            states.append(("258+rest", one, (h, w, 1, 2, 1, 258, False)))
+            states.append(("258+rest", one, (h, w, 1, 2, None, 259, False)))
+        if h >= 16:
+            states.append(("rows", rows, (h, w, None, None, None, None, False)))
+            states.append(("rows", rows, (h, w, h, h, w - 1, 257, False)))
+        for label, blocks, cfg in states:
+            draws = rand_draws(rng, 2500)
+            reqs.append("CAND %s %s %s" % (enc_cfg(cfg), enc_blocks(blocks), enc_nats(draws)))
+            cases.append((cfg, norm_blocks(blocks), tuple(draws), label))
+    for (cfg, blocks, draws, label), o in zip(cases, m.batch(reqs)):
+        io = impl_candidates(fresh_cfg(cfg), blocks, draws)
+        ctx.count("cand-big:" + label)
+        ctx.corr("candidates/big-ints", (cfg, label, draws[:8]), parse_cand(o), io)
+        if io[0] == "ok" and io[1][0]:
+            ctx._c18_big = getattr(ctx, "_c18_big", []) + [(cfg, blocks, list(io[1][0]))]
+
+    # --- (class 6) constructor call forms: all keywords / None omitted / positional / mixed
+    reqs, cases = [], []
+    vals = [None, 0, 1, 2, 3, 5, 9]
+    for _ in range(120):
+        h, w = rng.randint(1, 4), rng.randint(1, 4)
+        cfg = (h, w, rng.choice(vals), rng.choice(vals), rng.choice(vals), rng.choice(vals), False)
+        reqs.append("CFG " + enc_cfg(cfg))
+        cases.append(cfg)
+    for cfg, o in zip(cases, m.batch(reqs)):
+        for form in FORMS:
+            def f():
+                b = mk_builder_form(cfg, form)
+                return (b.min_num_blocks, b.max_num_blocks, b.min_block_size, b.max_block_size)
+            ctx.corr("init-defaults/forms", (cfg, form), ("ok", tuple(int(v) for v in o.split()[1:])), vlib.guarded(f))
+    reqs, cases = [], []
+    for _ in range(60):
+        h, w = rng.randint(1, 4), rng.randint(1, 4)
+        ib = norm_blocks(rand_partition(rng, h, w, rng.randint(1, h * w))) if rng.random() < 0.5 else None
+        nb = len(ib) if ib else 1
+        mn, mx, ms, xs = rand_bounds(rng, h, w, nb, [len(b) for b in ib] if ib else [h * w])
+        cfg = (h, w, mn, mx, ms, xs, rng.random() < 0.15)
+        draws = tuple(rand_draws(rng, 200))
+        reqs.append("INIT %s %s %s" % (enc_cfg(cfg), "0" if ib is None else "1 " + enc_blocks(ib), enc_nats(draws)))
+        cases.append((cfg, ib, draws))
+    for (cfg, ib, draws), o in zip(cases, m.batch(reqs)):
+        for form in FORMS[1:]:
+            def f():
+                b = mk_builder_form(cfg, form, None if ib is None else [list(x) for x in ib])
+                with patched(Replay(draws)) as rp:
+                    r = b.initial()
+                return (norm_blocks(r), rp.remaining())
+            ctx.corr("initial/forms", (cfg, ib, form, draws[:6]), parse_blocks_reply(o, True), norm_err(vlib.guarded(f)))
 
 
 # ---------------------------------------------------------------- independent oracle
@@ -685,6 +1044,258 @@ def search(ctx):
         for u in ups:
             cur = [list(b) for b in blocks]
             check_step(ctx, cfg, builder, cur, ([*u[0]], [list(b) for b in u[1]]), "generated state")
+    # 3. hardened input classes
+    search_shapes(ctx)
+    search_big_ints(ctx)
+    search_purity(ctx)
+
+
+# ---------------------------------------------------------------- search, hardened input classes
+
+def lean_step(ctx, cfg, builder, cur, u, where):
+    """invariant half of check_step only (no deep copies): for the exhaustive enumerations"""
+    key0 = "%dx%d:%s" % (cfg[0], cfg[1], kind_of(u))
+    try:
+        new = builder.copy_with_update(cur, u)
+    except Exception as ex:  # noqa
+        ctx.violation(key0 + ":apply-raises", "copy_with_update raised on a proposed update",
+                      {"cfg": list(cfg), "value": copy.deepcopy(cur), "update": copy.deepcopy(u), "error": vlib.err_name(ex), "where": where})
+        return False
+    why = inv_failure(cfg, new)
+    if why:
+        ctx.violation(key0 + ":" + why, "applying a proposed update leaves the invariant: " + why,
+                      {"cfg": list(cfg), "value": copy.deepcopy(cur), "update": copy.deepcopy(u), "result": new, "where": where})
+        return False
+    return True
+
+
+def probe_state(ctx, cfg, blocks, where, calls=1, full=4, fresh=False):
+    """every update the real code proposes for this (valid) value must lead to a valid value"""
+    if inv_failure(cfg, blocks) is not None:
+        return
+    rng = ctx.rng
+    builder = mk_builder(fresh_cfg(cfg) if fresh else cfg)
+    snap = copy.deepcopy(blocks)
+    seen = set()
+    for c in range(calls):
+        try:
+            with patched(BudgetRandom(rng, 10 ** 6)):
+                cands = builder.candidates(blocks)
+        except Exception as ex:  # noqa
+            ctx.violation("%dx%d:candidates:raises-%s" % (cfg[0], cfg[1], vlib.err_name(ex)),
+                          "candidates() raised on a value that satisfies the invariant",
+                          {"cfg": list(cfg), "value": snap, "error": vlib.err_name(ex), "where": where})
+            return
+        if blocks != snap:
+            ctx.violation("%dx%d:modified-by-candidates" % (cfg[0], cfg[1]), "TEST(purity): candidates() modified the value it was given",
+                          {"cfg": list(cfg), "value": snap, "after": copy.deepcopy(blocks), "where": where})
+            blocks[:] = copy.deepcopy(snap)
+        ctx.prop_case("state:" + where.split(":")[0], (cfg, norm_blocks(snap), c))
+        k = 0
+        for u in cands:
+            nu = norm_update(u)
+            if nu in seen:
+                continue
+            seen.add(nu)
+            ctx.count("prop:probe-" + kind_of(u))
+            if k < full:
+                k += 1
+                check_step(ctx, cfg, builder, blocks, u, where)
+            else:
+                lean_step(ctx, cfg, builder, blocks, u, where)
+
+
+def tight_cfgs(h, w, blocks):
+    n, sizes = len(blocks), [len(b) for b in blocks]
+    return [(h, w, None, None, None, None, False), (h, w, None, n, None, None, False),
+            (h, w, n, None, None, max(sizes), False), (h, w, None, None, min(sizes), None, False)]
+
+
+def search_shapes(ctx):
+    """class 5: values that short walks from initial() practically never reach"""
+    rng = ctx.rng
+    deep = getattr(ctx, "deep", False)
+    # (a) every connected cell set of the 3x4 / 4x3 board as a block, the rest = components of the complement;
+    #     4x4: every block with a hole + a sample of the others (thorough / deep: all)
+    for (h, w) in [(3, 4), (4, 3)]:
+        for k, blk in enumerate(SH.connected_subsets(h, w)):
+            if len(blk) == h * w:
+                continue
+            blocks = SH.partition_around(h, w, blk, order=("first", "last")[k % 2])
+            cfg = tight_cfgs(h, w, blocks)[k % 2]
+            probe_state(ctx, cfg, blocks, "all-blocks-%dx%d" % (h, w), full=1)
+    c44 = [b for b in SH.connected_subsets(4, 4) if len(b) < 16]
+    holes = [b for b in c44 if SH.has_hole(4, 4, b)]
+    plain = [b for b in c44 if not SH.has_hole(4, 4, b)]
+    if not (ctx.thorough or deep):
+        plain = rng.sample(plain, 1200)
+    for k, blk in enumerate(holes + plain):
+        blocks = SH.partition_around(4, 4, blk, rng, cut=0.3 if k % 3 == 0 else 0.0, order=("first", "last", "shuffle")[k % 3])
+        cfg = tight_cfgs(4, 4, blocks)[1 if k % 4 else 0]      # mostly without the (random, expensive) split section
+        probe_state(ctx, cfg, blocks, "all-blocks-4x4", full=1 if k % 16 else 4)
+    # (b) targeted shapes on the larger boards
+    for (h, w) in TARGET_BOARDS + [(6, 7)]:
+        reps = 2 if (ctx.thorough or deep) else 1
+        for _ in range(reps):
+            for label, blk in targeted_blocks(rng, h, w):
+                blocks = SH.partition_around(h, w, SH.reorder(rng, blk), rng, cut=rng.choice([0.0, 0.0, 0.5]),
+                                             order=rng.choice(["first", "last", "shuffle"]))
+                cfgs = tight_cfgs(h, w, blocks)
+                probe_state(ctx, cfgs[0], blocks, "shape:" + label, calls=2, full=3)
+                probe_state(ctx, rng.choice(cfgs[1:]), blocks, "shape:" + label, calls=1, full=1)
+
+
+def search_big_ints(ctx):
+    """class 2: bounds / block counts / block sizes above 256, as int objects created at run time"""
+    rng = ctx.rng
+    for (cfg, blocks, ups) in getattr(ctx, "_c18_big", []):
+        cur = [list(b) for b in blocks]
+        if inv_failure(cfg, cur) is not None:
+            continue
+        builder = mk_builder(fresh_cfg(cfg))
+        ctx.prop_case("state:big-ints", (cfg, len(blocks)))
+        for u in (ups if len(ups) <= 60 else rng.sample(ups, 60)):
+            lean_step(ctx, cfg, builder, cur, ([*u[0]], [list(b) for b in u[1]]), "big-ints")
+    for (h, w) in [(1, 270), (16, 17), (17, 16), (2, 135)]:
+        cells = SH.board(h, w)
+        n = len(cells)
+        singles = [[c] for c in cells]
+        for cfg in [(h, w, None, n, None, None, False), (h, w, n, None, None, None, False), (h, w, 257, n, None, 257, False),
+                    (h, w, n - 1, n, None, 2, False)]:
+            probe_state(ctx, cfg, copy.deepcopy(singles), "big-ints:singletons", full=1, fresh=True)
+        if h >= 16:
+            rows = [[(y, x) for x in range(w)] for y in range(h)]
+            for cfg in [(h, w, None, None, None, None, False), (h, w, h, h, None, None, False), (h, w, None, h, w, w, False)]:
+                probe_state(ctx, cfg, copy.deepcopy(rows), "big-ints:rows", full=1, fresh=True)
+        if h == 1:
+            for cut in (n // 2, 258, 257):
+                two = [cells[:cut], cells[cut:]]
+                for cfg in [(h, w, None, 2, None, None, False), (h, w, 2, 2, min(cut, n - cut), max(cut, n - cut), False),
+                            (h, w, 1, 2, None, 258, False)]:
+                    probe_state(ctx, cfg, copy.deepcopy(two), "big-ints:two-blocks", full=1, fresh=True)
+    # a walk on a 1x300 board whose bounds sit just above 256
+    cfg = (1, 300, 1, 3, 20, 259, False)
+    builder = mk_builder(fresh_cfg(cfg))
+    br = BudgetRandom(rng, 200000)
+    try:
+        with patched(br):
+            cur = builder.initial()
+    except (BudgetExceeded, IndexError):
+        cur = None
+    if cur is not None:
+        why = inv_failure(cfg, cur)
+        ctx.prop_case("initial", (cfg, norm_blocks(cur)))
+        if why:
+            ctx.violation("1x300:initial:" + why, "initial() returned a value outside the invariant: " + why,
+                          {"cfg": list(cfg), "result": cur, "where": "big-ints initial"})
+        else:
+            for t in range(5):
+                br.budget = 10 ** 6
+                with patched(br):
+                    cands = builder.candidates(cur)
+                if not cands:
+                    break
+                for u in rng.sample(cands, min(8, len(cands))):
+                    lean_step(ctx, cfg, builder, cur, u, "big-ints walk step %d" % t)
+                new = check_step(ctx, cfg, builder, cur, rng.choice(cands), "big-ints walk step %d" % t)
+                if new is None:
+                    break
+                cur = new
+
+
+def search_purity(ctx):
+    """class 3 (TEST, not a theorem): histories on the same objects"""
+    rng = ctx.rng
+    n = 900 if ctx.thorough else 220
+    for it in range(n):
+        h, w = rng.choice([(1, 4), (2, 2), (2, 3), (3, 3), (3, 4), (4, 4), (4, 5), (5, 5)])
+        blocks = rand_partition(rng, h, w, rng.randint(1, h * w))
+        cfg = rng.choice(tight_cfgs(h, w, blocks))
+        where = "purity"
+        detail = {"cfg": list(cfg), "value": copy.deepcopy(blocks), "where": where}
+        key0 = "%dx%d" % (h, w)
+        # -- candidates(): value unchanged; scrambling what it returned leaves the value and a second call unchanged
+        builder = mk_builder_form(cfg, rng.choice(FORMS))
+        snap = copy.deepcopy(blocks)
+        draws = rand_draws(rng, 30 * h * w + 40)
+        try:
+            with patched(Replay(draws)):
+                c1 = builder.candidates(blocks)
+            first = [norm_update(u) for u in canon_list(c1)]
+            ok1 = blocks == snap
+            hard_scramble(c1)
+            ok2 = blocks == snap
+            with patched(Replay(draws)):
+                c2 = builder.candidates(blocks)
+            second = [norm_update(u) for u in canon_list(c2)]
+        except Exception as ex:  # noqa
+            ctx.violation(key0 + ":candidates:raises-" + vlib.err_name(ex), "candidates() raised on a value that satisfies the invariant",
+                          dict(detail, error=vlib.err_name(ex)))
+            continue
+        ctx.prop_case("purity-candidates", (cfg, norm_blocks(snap), tuple(draws[:6])))
+        if not ok1:
+            ctx.violation(key0 + ":modified-by-candidates", "TEST(purity): candidates() modified the value it was given", dict(detail, after=blocks))
+        elif not ok2:
+            ctx.violation(key0 + ":candidates-alias-value", "TEST(purity): mutating the updates returned by candidates() changed the value", dict(detail, after=blocks))
+        elif first != second:
+            ctx.violation(key0 + ":candidates-history", "TEST(history): a second candidates() call on the same value with the same PRNG draws proposes different updates",
+                          dict(detail, first=first[:6], second=second[:6]))
+        blocks = copy.deepcopy(snap)
+        # -- copy_with_update(): update unchanged; applying the same update again gives the same value
+        if c2:
+            u = rng.choice(c2)
+            usnap = copy.deepcopy(u)
+            try:
+                r1 = builder.copy_with_update(blocks, u)
+                k1 = copy.deepcopy(r1)
+                same_u = (u == usnap)
+                r2 = builder.copy_with_update(blocks, u)
+            except Exception as ex:  # noqa
+                ctx.violation(key0 + ":" + kind_of(usnap) + ":apply-raises", "copy_with_update raised on a proposed update",
+                              dict(detail, update=usnap, error=vlib.err_name(ex)))
+                continue
+            ctx.prop_case("purity-apply", (cfg, norm_blocks(snap), norm_update(usnap)))
+            if not same_u:
+                ctx.violation(key0 + ":update-modified-by-apply", "TEST(purity): copy_with_update modified the update it was given", dict(detail, update=usnap, after=u))
+            if blocks != snap:
+                ctx.violation(key0 + ":" + kind_of(usnap) + ":modified-by-apply", "TEST(purity): copy_with_update modified its argument", dict(detail, update=usnap, after=blocks))
+            if r2 != k1:
+                ctx.violation(key0 + ":apply-history", "TEST(history): applying the same update to the same value twice gives different values",
+                              dict(detail, update=usnap, first=k1, second=r2))
+            hard_scramble(r1)
+            if blocks != snap:
+                ctx.violation(key0 + ":" + kind_of(usnap) + ":aliased-result", "TEST(purity): mutating the result of copy_with_update changed the value it was applied to",
+                              dict(detail, update=usnap))
+        # -- initial(): the configured initial_blocks are not handed out / modified
+        ib = copy.deepcopy(snap)
+        allow = it % 3 == 0
+        icfg = cfg[:6] + (allow,)
+        b2 = mk_builder_form(icfg, rng.choice(FORMS), ib)
+        try:
+            with patched(BudgetRandom(rng, 4000)):
+                v1 = b2.initial()
+            k1 = copy.deepcopy(v1)
+            ok_ib = (ib == snap)
+            hard_scramble(v1)
+            ok_alias = (ib == snap) and (b2.initial_blocks == snap)
+            with patched(BudgetRandom(rng, 4000)):
+                v2 = b2.initial()
+        except (BudgetExceeded, IndexError):
+            continue
+        except Exception as ex:  # noqa
+            ctx.violation(key0 + ":initial:raises-" + vlib.err_name(ex), "initial() raised on initial_blocks that satisfy the invariant",
+                          dict(detail, error=vlib.err_name(ex)))
+            continue
+        ctx.prop_case("purity-initial", (icfg, norm_blocks(snap)))
+        if not ok_ib:
+            ctx.violation(key0 + ":initial-modified-initial_blocks", "TEST(purity): initial() modified the configured initial_blocks", dict(detail, after=ib))
+        elif not ok_alias:
+            ctx.violation(key0 + ":initial-aliases-initial_blocks", "TEST(purity): the value returned by initial() shares lists with the configured initial_blocks "
+                          "(mutating it changes what the next initial() starts from)", dict(detail, cfg=list(icfg)))
+        why = inv_failure(icfg, v2, with_bounds=not allow)
+        if why:
+            ctx.violation(key0 + ":initial:second-call:" + why, "a second initial() on the same builder returned a value outside the invariant: " + why,
+                          dict(detail, cfg=list(icfg), result=v2, first=k1))
 
 
 def replay(ctx, rp):
